@@ -516,7 +516,7 @@ package spine
 //@   ensures call: result == nil && CLS == model.CmdClassifierTypeCall ==> rn[S] == K || (rn[S] == K + 1 && rcls[S][K] == model.CmdClassifierTypeReply && ANS(K))
 //@   ensures write: result == nil && CLS == model.CmdClassifierTypeWrite ==> rn[S] == K || (rn[S] == K + 1 && rcls[S][K] == model.CmdClassifierTypeResult && ANS(K))
 //@   ensures bounded: K <= rn[S] && rn[S] <= K + 1
-//@   modifies @RESP, @PUBLISH, @WRITE, world, held, spawn, sendfails, hmn
+//@   modifies @RESP, @PUBLISH, @WRITE, world, held, spawn, sendfails, hmn, @DISCOVERY
 
 //@ func (*DeviceLocal).ProcessCmd safety-root
 //@   assumes r != nil && remoteDevice != nil && r.bindingManager != nil && forall i int :: 0 <= i && i < len(r.entities) ==> r.entities[i] != nil
@@ -544,7 +544,7 @@ package spine
 //@   ensures[C01] others: forall s any :: s != S ==> rn[s] == old(rn)[s]
 //@   ensures[C03] gate-permission: OK && CLS == model.CmdClassifierTypeWrite && LF != nil && cmdHasData(datagram.Payload.Cmd[0]) && cmdHasFct(datagram.Payload.Cmd[0]) && old(!(has(LF.Operations(), cmdFct(datagram.Payload.Cmd[0])) && LF.Operations()[cmdFct(datagram.Payload.Cmd[0])].Write())) ==> result != nil && rn[S] == K + 1 && rcls[S][K] == model.CmdClassifierTypeResult && rerr[S][K] != model.ErrorNumberTypeNoError && hmn == old(hmn)
 //@   ensures[C03] gate-binding: OK && CLS == model.CmdClassifierTypeWrite && LF != nil && old(!r.bindingManager.HasLocalFeatureRemoteBinding(LF.Address(), RF.Address())) ==> result != nil && rn[S] == K + 1 && rcls[S][K] == model.CmdClassifierTypeResult && rerr[S][K] != model.ErrorNumberTypeNoError && hmn == old(hmn)
-//@   modifies @RESP, @PUBLISH, @WRITE, world, held, spawn, hmn, sendfails
+//@   modifies @RESP, @PUBLISH, @WRITE, world, held, spawn, hmn, sendfails, @DISCOVERY
 
 // representation link between the interface-level getters and the fields of the production types
 //@ axiom forall p *FeatureLocal :: {asIface(p, api.FeatureLocalInterface).Address()} p != nil ==> asIface(p, api.FeatureLocalInterface).Address() == p.address
@@ -667,7 +667,7 @@ package spine
 //@   let CBS = r.writeApprovalCallbacks
 //@   ensures[C12] write-deferred: old(WRITE_OK && len(CBS) > 0) ==> result == nil && wapplied == old(wapplied) && respSame && spawnn == old(spawnn) + len(CBS) && forall d int :: old(spawnn) <= d && d < spawnn ==> spawnfn[d] == old(CBS[d - old(spawnn)]) && spawnarg(d, 0, *api.Message) == message
 //@   ensures[C12] write-direct: old(WRITE_OK && len(CBS) == 0) ==> result == nil && wapplied == old(wapplied) + 1 && wmsg[old(wapplied)] == message
-//@   modifies map(gomap[string]map[model.MsgCounterType]*time.Timer), map(gomap[model.MsgCounterType]*time.Timer), map(gomap[model.MsgCounterType][]func(api.ResponseMessage)), timers
+//@   modifies map(gomap[string]map[model.MsgCounterType]*time.Timer), map(gomap[model.MsgCounterType]*time.Timer), map(gomap[model.MsgCounterType][]func(api.ResponseMessage)), timers, @DISCOVERY
 
 // ---------------------------------------------------------------------------------------
 // node management message handling (C01): which handler sends which response
@@ -697,7 +697,6 @@ package spine
 // that entry - one request per removed entry, in order, and no other removal
 //@ func (*NodeManagement).processNotifyDetailedDiscoveryData safety-root
 //@   assumes r != nil && r.entity != nil && message != nil && message.FeatureRemote != nil && data != nil
-//@   requires r != nil && message != nil && message.FeatureRemote != nil && data != nil
 //@   let EI = data.EntityInformation
 //@   let RD = message.FeatureRemote.Device()
 //@   define isRemoved(x) = x.Description != nil && x.Description.LastStateChange != nil && *x.Description.LastStateChange == model.NetworkManagementStateChangeTypeRemoved
@@ -718,7 +717,7 @@ package spine
 //@   ensures[C01] read-replies: result == nil && message.CmdClassifier == model.CmdClassifierTypeRead ==> oneReply(nmS, K, message.RequestHeader)
 //@   ensures[C01] others-silent: message.CmdClassifier != model.CmdClassifierTypeRead || result != nil ==> respSame && sendfails >= old(sendfails)
 //@   ensures[C01] only-read-reply-notify: !(message.CmdClassifier == model.CmdClassifierTypeRead || message.CmdClassifier == model.CmdClassifierTypeReply || message.CmdClassifier == model.CmdClassifierTypeNotify) ==> result != nil
-//@   modifies @RESP, @PUBLISH, world, held, sendfails
+//@   modifies @RESP, @PUBLISH, world, held, sendfails, @DISCOVERY
 
 //@ func (*NodeManagement).processReadSubscriptionData
 //@   requires NMREQ
@@ -756,7 +755,7 @@ package spine
 //@ func[C01] (*NodeManagement).HandleMessage impl:api.FeatureLocalInterface.HandleMessage safety-root
 //@   assumes r != nil && r.FeatureLocal != nil && r.FeatureLocal.Feature != nil && r.FeatureLocal.address != nil && r.FeatureLocal.responseMsgCallback != nil && r.entity != nil
 //@   requires r != nil && r.FeatureLocal != nil && r.FeatureLocal.Feature != nil && r.FeatureLocal.address != nil && r.FeatureLocal.responseMsgCallback != nil
-//@   modifies map(gomap[model.MsgCounterType][]func(api.ResponseMessage))
+//@   modifies map(gomap[model.MsgCounterType][]func(api.ResponseMessage)), @DISCOVERY
 
 // ---------------------------------------------------------------------------------------
 // further roots of the safety sweep (C05): inbound entry point and the discovery handlers
@@ -769,7 +768,7 @@ package spine
 //@   ensures[C13] reference-released-first: result1 == nil && REF != nil ==> prn == old(prn) + 1 && at(ProcessCmd, prn) == old(prn) + 1 && prsender[old(prn)] == d.sender && prref[old(prn)] == REF
 //@   ensures[C13] no-reference-no-release: result1 == nil && REF == nil ==> prn == old(prn)
 //@   ensures[C13] undecodable-ignored: result1 != nil ==> prn == old(prn) && hmn == old(hmn)
-//@   modifies @RESP, @PUBLISH, @WRITE, world, held, spawn, hmn, sendfails, map(gomap[model.MsgCounterType]string), prn, prsender, prref, @SETLOG, cells(model.Datagram)
+//@   modifies @RESP, @PUBLISH, @WRITE, world, held, spawn, hmn, sendfails, map(gomap[model.MsgCounterType]string), prn, prsender, prref, @SETLOG, cells(model.Datagram), @DISCOVERY
 
 //@ func (*DeviceRemote).AddEntityAndFeatures safety-root
 //@   assumes d != nil && d.Device != nil && data != nil && forall i int :: 0 <= i && i < len(d.entities) ==> d.entities[i] != nil
@@ -1183,7 +1182,7 @@ package spine
 //@ define rentAt(e, id) = deepEqual(id, e.Address().Entity)
 
 // the entity with a given address: the first one whose address equals it (content equality), nil iff none
-//@ func (*DeviceRemote).Entity
+//@ func (*DeviceRemote).Entity safety-inline
 //@   requires d != nil
 //@   let L0 = d.entities
 //@   defines[] iface-view: result == asIface(d, api.DeviceRemoteInterface).Entity(id)
